@@ -40,6 +40,16 @@ Definition check_point (streams : list stream) (prev o : obs) (l : label) : bool
                                                 | _ => true end else true
      | _ => true
      end
+  (* "its checkpoint stays": a drop the downstream refuses marks no checkpoint of the collection as dropped *)
+  && match l with
+     | EvDrop k true =>
+         forallb (fun e => negb (snd (snd e))
+                           || negb (match nth_error streams k, nth_error streams (fst e) with
+                                    | Some a, Some b => String.eqb (s_task a) (s_task b) && Z.eqb (s_coll a) (s_coll b)
+                                    | _, _ => false end)
+                           || existsb (fun e' => Nat.eqb (fst e') (fst e) && snd (snd e')) (o_store prev)) (o_store o)
+     | _ => true
+     end
   (* nobody else changes state *)
   && forallb (fun tb => match run_of prev (fst tb) with
                         | Some b => Bool.eqb b (snd tb) || may_change streams prev o l (fst tb)
